@@ -310,4 +310,35 @@ class product(_side):
     keep_label, method = "FORMED", "product"
 
 
-DERIVATIONS = {"reactant": reactant, "product": product, "reverse_reaction": reverse_reaction, "subgraph(any size)": subgraph_any, "copy": copy, "copy_constructor": copy_constructor, "relabel_atoms(copy=True)": relabel_copy, "relabel_atoms(copy=False)": relabel_inplace, "subgraph": subgraph, "enantiomer": enantiomer}
+class _stereo_side(_side):
+    """reactant() / product() of a StereoCondensedReactionGraph: the MolGraph part as above, the static descriptors, and the
+    BROKEN (reactant) / FORMED (product) descriptor of every stereo change in their place; a new StereoMolGraph.
+    Pre-condition (what from_graphs establishes and the property speaks about): a bond-centred stereo change of that role
+    sits on a bond that exists on that side."""
+    classes = ("StereoCondensedReactionGraph",)
+
+    def result_class(self, cname):
+        return "StereoMolGraph"
+
+    def pre(self, v, s, cname):
+        b = z3.Const("pb", BondS)
+        c = H.CHG[self.keep_label]
+        return z3.ForAll([b], z3.Implies(z3.And(v.bc_has(b), v.bc_slot_has(b, c)), self.on_side(v, b)), patterns=[v.bc_slot_has(b, c)])
+
+    def spec(self, v, s, cname):
+        sp = super().spec(v, s, cname)
+        c = H.CHG[self.keep_label]
+        sp["as"] = lambda x: z3.If(z3.And(v.ac_has(x), v.ac_slot_has(x, c)), v.ac_slot(x, c), as_view(v, x))
+        sp["bs"] = lambda b: z3.If(z3.And(v.bc_has(b), v.bc_slot_has(b, c)), v.bc_slot(b, c), bs_view(v, b))
+        return sp
+
+
+class stereo_reactant(_stereo_side):
+    keep_label, method = "BROKEN", "reactant"
+
+
+class stereo_product(_stereo_side):
+    keep_label, method = "FORMED", "product"
+
+
+DERIVATIONS = {"reactant(stereo)": stereo_reactant, "product(stereo)": stereo_product, "reactant": reactant, "product": product, "reverse_reaction": reverse_reaction, "subgraph(any size)": subgraph_any, "copy": copy, "copy_constructor": copy_constructor, "relabel_atoms(copy=True)": relabel_copy, "relabel_atoms(copy=False)": relabel_inplace, "subgraph": subgraph, "enantiomer": enantiomer}
